@@ -197,9 +197,10 @@ func init() {
 	eng.Register(&eng.Check{
 		ID: "C27", Level: "exploration", HangBound: 60 * time.Second,
 		QuickBudget: 100 * time.Second, ThoroughBudget: 20 * time.Minute,
-		Rule: "fit: every lib/shape type (23 + the default arm) x content (w,h) in G^2 (G = 22 values 0..1597, Fibonacci + round numbers; thorough: every integer pair 0..160 as well) x padding in {0,5,40}^2, GetDimensionsToFit -> NewShape -> GetInnerBox (cloud: GetInnerBoxForContent); trace: every type x box sizes/origins x 9 entry points per side x 35 entry angles (-85..85 deg from the inward normal) x 3 distances of the previous point, TraceToShapeBorder against the harness's own flattened model of the DRAWN outline (GetSVGPathData / inscribed ellipse / box); non-trivial = positive content size (fit) or the route's line robustly crosses the outline (trace); all inputs distinct by construction",
+		Rule: "fit: every lib/shape type (23 + the default arm) x content (w,h) in G^2 (G = 21 values 1..1597, Fibonacci + round numbers; thorough: every integer pair 1..160 as well) x padding in {0,5,40}^2, GetDimensionsToFit -> NewShape -> GetInnerBox (cloud: GetInnerBoxForContent); trace: every type x box sizes/origins x 9 (thorough 17) entry points per side x 35 (thorough 69) entry angles (-85..85 deg from the inward normal) x 3 distances of the previous point, TraceToShapeBorder against the harness's own flattened model of the DRAWN outline (GetSVGPathData / inscribed ellipse / box); non-trivial = positive content size (fit) or the route's line robustly crosses the outline (trace); all inputs distinct by construction",
 		Assumptions: []string{
 			"content sizes and paddings outside the stated grids are not covered; the quantifier's 'symbolic reasoning over the fit formulas' is not attempted",
+			"zero-size content is excluded (degenerate aspect ratios; d2graph never sizes a shape to empty content)",
 			"the text area of a cloud is GetInnerBoxForContent(content) as d2graph uses it; for all other shapes GetInnerBox()",
 			"the outline is the drawn one (first SVG path of the shape, both paths for c4-person, inscribed ellipse for oval/circle, the box for rectangular shapes), flattened with 256 steps per Bezier / 1440 per ellipse; tolerance 1.5 px (the traced point is rounded to integers)",
 			"trace cases whose line does not cross the outline also when shifted by 1 px to either side are outside the statement (nothing to land on) and only counted",
@@ -240,6 +241,11 @@ func init() {
 			}
 			fracs := []float64{0.02, 0.125, 0.25, 0.4, 0.5, 0.6, 0.75, 0.875, 0.98}
 			dists := []float64{2, 35, 400}
+			angStep := 5.0
+			if w.Thorough() {
+				fracs = []float64{0.005, 0.02, 0.0625, 0.125, 0.1875, 0.25, 0.333, 0.4, 0.5, 0.6, 0.667, 0.75, 0.8125, 0.875, 0.9375, 0.98, 0.995}
+				angStep = 2.5
+			}
 			w.Phase("trace", func() {
 				for _, t := range shapeTypes {
 					for _, b := range boxes {
@@ -248,9 +254,9 @@ func init() {
 						}
 						for _, side := range []string{"top", "right", "bottom", "left"} {
 							for _, fr := range fracs {
-								for ang := -85; ang <= 85; ang += 5 {
+								for ang := -85.0; ang <= 85; ang += angStep {
 									for _, d := range dists {
-										w.Eval("trace", fmt.Sprintf("%s %s %s %s %s %s %s %d %s", tname(t), fnum(b.x), fnum(b.y), fnum(b.w), fnum(b.h), side, fnum(fr), ang, fnum(d)))
+										w.Eval("trace", fmt.Sprintf("%s %s %s %s %s %s %s %s %s", tname(t), fnum(b.x), fnum(b.y), fnum(b.w), fnum(b.h), side, fnum(fr), fnum(ang), fnum(d)))
 									}
 								}
 							}
